@@ -36,7 +36,7 @@ TWINS = [
     ('binop-swap', 'C09', 'smuserlist.py', '                # singleton * non-singleton\n                return [op(left.A, x) for x in right.A]\n        else:', '                # singleton * non-singleton\n                return [op(x, left.A) for x in right.A]\n        else:', 'R7', 'binop'),
     ('op2-zip-noguard', 'C09', 'super_pose.py', '                elif len(left) == len(right):\n                    #print(\'== NxN\')', "                elif left.shape == right.shape:\n                    #print('== NxN')", 'R7', '_op2'),
     ('se3-t-noguard', 'C09', 'pose3d.py', '        if len(self) == 1:\n            return self.A[:3, 3]\n        else:\n            return np.array([x[:3, 3] for x in self.A])', '        return self.A[:3, 3]', 'R8', 'SE3.t'),
-    ('so3-rpy-branch-kw', 'C09', 'pose3d.py', 'return np.array([base.tr2rpy(x, unit=unit, order=order) for x in self.A]).T', 'return np.array([base.tr2rpy(x, unit=unit) for x in self.A]).T', 'R8', 'SO3.rpy'),
+    ('so3-rpy-branch-kw', 'C09', 'pose3d.py', 'return np.array([base.tr2rpy(x, unit=unit, order=order) for x in self.A])', 'return np.array([base.tr2rpy(x, unit=unit) for x in self.A])', 'R8', 'SO3.rpy'),
     ('twist-isprismatic-data', 'C09', 'twist.py', 'return [base.iszerovec(x.w) for x in self]', 'return [base.iszerovec(x.w) for x in self.data]', 'R8', 'isprismatic'),
     # ---- C10
     ('append-noguard', 'C10', 'smuserlist.py', '        if not type(self) == type(item):\n            raise ValueError("can\'t append different type of object")\n        if len(item) > 1:\n            raise ValueError("can\'t append a multivalued instance - use extend")\n        super().append(item.A)', '        if len(item) > 1:\n            raise ValueError("can\'t append a multivalued instance - use extend")\n        super().append(item.A)', 'RL', 'append'),
@@ -93,7 +93,7 @@ TWINS = [
     ('eul2r-order', 'C05', 'base/transforms3d.py', 'return rotz(angles[0]) @ roty(angles[1]) @ rotz(angles[2])', 'return rotz(angles[2]) @ roty(angles[1]) @ rotz(angles[0])', 'R12', 'eul2r'),
     ('tr2eul-singular', 'C05', 'base/transforms3d.py', "        eul[0] = 0\n        sp = 0\n        cp = 1\n", "        eul[0] = 0\n        sp = 1\n        cp = 0\n", 'R16', 'tr2eul'),
     ('tr2rpy-nodeg', 'C05', 'base/transforms3d.py', "    if unit == 'deg':\n        rpy *= 180 / math.pi\n\n    return rpy", '    return rpy', 'R10x', 'tr2rpy'),
-    ('so3-eul-branch-flip', 'C05', 'pose3d.py', 'return np.array([base.tr2eul(x, unit=unit, flip=flip) for x in self.A]).T', 'return np.array([base.tr2eul(x, unit=unit) for x in self.A]).T', 'R8', 'SO3.eul'),
+    ('so3-eul-branch-flip', 'C05', 'pose3d.py', 'return np.array([base.tr2eul(x, unit=unit, flip=flip) for x in self.A])', 'return np.array([base.tr2eul(x, unit=unit) for x in self.A])', 'R8', 'SO3.eul'),
     ('tr2rpy-order-alias', 'C05', 'base/transforms3d.py', "    elif order == 'yxz' or order == 'camera':\n\n        if abs(abs(R[1, 2]) - 1) < 10 * _eps:", "    elif order == 'yxz':\n\n        if abs(abs(R[1, 2]) - 1) < 10 * _eps:", 'R10o', 'rpy2r/tr2rpy'),
     # ---- C06
     ('mul-right-T', 'C06', 'super_pose.py', "            #print('*: pose x array')\n            if len(left) == 1 and base.isvector(right, left.N):", "            #print('*: pose x array')\n            if isinstance(right, np.ndarray) and right.ndim == 2 and right.shape[1] == left.N:\n                right = right.T\n            if len(left) == 1 and base.isvector(right, left.N):", 'R16', '__mul__'),
@@ -143,7 +143,7 @@ TWINS = [
     # ---- C20
     ('vcross-entry', 'C20', 'spatialvector.py', '[ 0,     0,     0,      v[5],   0,    -v[3]   ],', '[ 0,     0,     0,      v[5],   0,     v[3]   ],', 'R16', 'cross'),
     ('force-notranspose', 'C20', 'spatialvector.py', 'return SpatialForce(-vcross.T @ other.A)', 'return SpatialForce(-vcross @ other.A)', 'R16', 'cross'),
-    ('rmul-force-ad', 'C20', 'spatialvector.py', '                return right.__class__(X.T @ right.A)', '                return right.__class__(X @ right.A)', 'R16', '__rmul__'),
+    ('rmul-force-ad', 'C20', 'spatialvector.py', '                return right.__class__([X.T @ x for x in right.data])', '                return right.__class__([X @ x for x in right.data])', 'R16', '__rmul__'),
     ('inertia-block', 'C20', 'spatialvector.py', '                    [m * C,         I + m * C @ C.T]', '                    [m * C,         I + m * C @ C]', 'R16', 'SpatialInertia.__init__'),
     ('sv-add-noguard', 'C20', 'spatialvector.py', "        if type(left) != type(right):\n            raise TypeError('can only add spatial vectors of same type')\n        if len(left) != len(right):\n            raise ValueError('can only add equal length arrays of spatial vectors')\n\n        return left.__class__([x + y for x, y in zip(left.data, right.data)])", "        if len(left) != len(right):\n            raise ValueError('can only add equal length arrays of spatial vectors')\n\n        return left.__class__([x + y for x, y in zip(left.data, right.data)])", 'R16', '__add__'),
     ('sv-ctor-asarray', 'C20', 'spatialvector.py', '        elif base.ismatrix(value, (6, None)):\n            self.data = [x for x in value.T]', '        elif base.ismatrix(np.asarray(value), (6, None)):\n            self.data = [x for x in np.asarray(value).T]', 'R16', 'SpatialVector.__init__'),
@@ -199,6 +199,10 @@ TWINS = [
     ('distance-parallel-vector', 'C19', 'geom3d.py', '            l = np.linalg.norm(np.cross(l1.w, l1.v - l2.v * np.dot(l1.w, l2.w) / np.dot(l2.w, l2.w))) / np.dot(l1.w, l1.w)', '            l = np.cross(l1.w, l1.v - l2.v * np.dot(l1.w, l2.w) / np.dot(l2.w, l2.w)) / np.dot(l1.w, l1.w)', 'R23', 'distance'),
     ('closest-lam-w', 'C19', 'geom3d.py', '        lam = np.dot(x - self.pp, self.uw)', '        lam = np.dot(x - self.pp, self.w)', 'R23', 'closest'),
     ('trexp2-so2-theta-only', 'C03', 'base/transforms2d.py', "        # do Rodrigues' formula for rotation\n        return base.rodrigues(w, theta)\n    else:\n        raise ValueError(\" First argument must be SO(2), 1-vector, SE(2) or 3-vector\")", "        if theta is None:\n            return base.rodrigues(w, theta)\n        return rot2(theta)\n    else:\n        raise ValueError(\" First argument must be SO(2), 1-vector, SE(2) or 3-vector\")", 'R17', 'trexp2'),
+    ('sv-rmul-whole-A', 'C20', 'spatialvector.py', '                return right.__class__([X @ x for x in right.data])', '                return right.__class__(X @ right.A)', 'R8', '__rmul__'),
+    ('inertia-mul-whole-A', 'C20', 'spatialvector.py', '            return SpatialForce(left.binop(right, lambda x, y: x @ y))  # F = ma', '            return SpatialForce(left.A @ right.A)  # F = ma', 'R8', 'SpatialInertia.__mul__'),
+    ('dq-norm-sqrt-dual', 'C12', 'DualQuaternion.py', '        return (base.sqrt(a.s), b.s / (2 * base.sqrt(a.s)))', '        return (base.sqrt(a.s), base.sqrt(b.s))', 'R16', 'norm'),
+    ('so3-rpy-stack-T', 'C09', 'pose3d.py', 'return np.array([base.tr2rpy(x, unit=unit, order=order) for x in self.A])', 'return np.array([base.tr2rpy(x, unit=unit, order=order) for x in self.A]).T', 'R8', 'SO3.rpy'),
 ]
 
 
